@@ -58,6 +58,46 @@ ALGS = dict(encryption_algs=['chacha20-poly1305@openssh.com'], kex_algs=['curve2
             compression_algs=['none'], mac_algs=())
 
 
+def translate(ctx: Ctx) -> Dict[str, Any]:
+    """Gen/C11.lean: the deferral condition and the rekey trigger of send_packet, from the AST."""
+    import ast
+    import importlib
+    import translate as T
+    import vlib
+    const = importlib.import_module('asyncssh.constants')
+    tree = ast.parse(T.read_source('asyncssh/connection.py'))
+    f = T.find_def(tree, 'SSHConnection.send_packet')
+    ifs = [n for n in f.body if isinstance(n, ast.If)]
+    trig = next((n for n in ifs if any(isinstance(b, ast.Expr) and '_send_kexinit' in ast.unparse(b) for b in n.body)), None)
+    defer = next((n for n in ifs if any(isinstance(b, ast.Return) for b in n.body) and
+                  '_deferred_packets' in ast.unparse(n)), None)
+    if trig is None or defer is None:
+        raise T.Untranslatable('send_packet: rekey trigger or deferral test not found')
+    env = {n: f'({getattr(const, n)} : Int)' for n in dir(const) if n.startswith('MSG_')}
+    env.update({'pkttype': 't', 'self._kex_complete': '(kexComplete = true)',
+                'self._auth_complete': '(authComplete = true)', 'self._auth_in_progress': '(authInProgress = true)'})
+    defer_lean = T.expr_to_lean(defer.test, env)
+    # trigger: auth_complete and kex_complete and (<byte or time limit>) -- the limit test is abstracted as `limit`
+    t = trig.test
+    if not (isinstance(t, ast.BoolOp) and isinstance(t.op, ast.And) and len(t.values) == 3):
+        raise T.Untranslatable('send_packet: rekey trigger is not `a and b and (limit)`')
+    lim_src = ast.unparse(t.values[2])
+    if '_rekey_bytes' not in lim_src or '_rekey_time' not in lim_src:
+        raise T.Untranslatable('send_packet: rekey limit test changed shape: ' + lim_src)
+    env2 = dict(env)
+    env2[lim_src] = '(limit = true)'
+    trig_lean = '(' + ' ∧ '.join(T.expr_to_lean(v, env2) for v in t.values) + ')'
+    out = T.header('C11', ['asyncssh/connection.py (send_packet: rekey trigger and deferral test)'])
+    out += 'namespace AsyncsshModel.Gen.C11\n\n'
+    out += '/-- `send_packet`: the packet is appended to `_deferred_packets` instead of being written -/\n'
+    out += f'def deferCond (t : Int) (kexComplete authInProgress authComplete : Bool) : Prop :=\n  {defer_lean}\n\n'
+    out += '/-- `send_packet`: a key re-exchange is started first (`limit` = byte or time limit reached) -/\n'
+    out += f'def triggerCond (authComplete kexComplete limit : Bool) : Prop :=\n  {trig_lean}\n\n'
+    out += 'end AsyncsshModel.Gen.C11\n'
+    changed = vlib.write_if_changed(vlib.module_path('AsyncsshModel.Gen.C11'), out)
+    return {'gen_file': 'Gen/C11.lean', 'changed': changed}
+
+
 class FakeTime:
     """Stands in for the `time` module inside asyncssh.connection: monotonic() is per connection."""
 
